@@ -111,6 +111,10 @@ def expected_keyof(t, env, depth=0):
                 continue
             acc = set(s) if acc is None else acc & s
         return 'string' if acc is None else acc
+    if k in ('null', 'undef') or (k == 'lit' and isinstance(t[1], str) and depth > 0):
+        # a union member without declared keys: `keyof (T | null)` is `never`; a string literal member contributes the keys of String, none of which
+        # the generated object types declare
+        return set()
     if k == 'and':
         sets = [expected_keyof(x, env, depth + 1) for x in t[1]]
         if any(s is None for s in sets):
@@ -179,6 +183,9 @@ def disc_objects(rng):
             if rng.random() < 0.6:
                 props[key] = (rng.choice(tys), rng.random() < 0.3)
         out.append(obj(props))
+    # a member with named properties AND an index signature (the index value type covers the declared properties, as TypeScript demands)
+    out.append(obj({'k': (lit('i'), False), 'a': (STR, False)}, ('or', [STR, NUM])))
+    out.append(obj({'k': (lit('j'), False)}, STR))
     return out
 
 
@@ -228,6 +235,8 @@ def gen_cases(tier, rng):
         elif r < 0.8:
             ms = rng.sample(objs, rng.randrange(2, 4))
             t = ('or', ms) if rng.random() < 0.6 or not disjoint_keys(ms[:2]) else ('and', ms[:2])
+            if t[0] == 'or' and rng.random() < 0.3:
+                t = ('or', ms + [rng.choice([NULL, lit('q'), ('undef',)])])      # a member without declared keys
             cases.append({'kind': 'keyof', 'A': t})
         else:
             ms = rng.sample(objs, rng.randrange(2, 4))
@@ -238,6 +247,15 @@ def gen_cases(tier, rng):
                     common &= set(m[1])
             key = rng.choice(sorted(common)) if common and rng.random() < 0.8 else rng.choice(['a', 'b', 'c', 'k', 'v'])
             cases.append({'kind': 'access', 'A': t, 'key': key})
+    # an object with named properties and an index signature must survive materialisation
+    idx_obj = obj({'k': (lit('i'), False), 'a': (STR, False)}, ('or', [STR, NUM]))
+    cases += [
+        {'kind': 'exclude', 'A': ('or', [idx_obj, STR]), 'B': STR},
+        {'kind': 'exclude', 'A': ('or', [idx_obj, obj({'k': (lit('x'), False), 'a': (NUM, False)}), NULL]), 'B': NULL},
+        {'kind': 'keyof', 'A': ('or', [obj({'a': (STR, False), 'b': (NUM, False)}), lit('q')])},
+        {'kind': 'keyof', 'A': ('or', [obj({'a': (STR, False), 'b': (NUM, False)}), ('undef',)])},
+        {'kind': 'keyof', 'A': ('or', [obj({'a': (STR, False), 'b': (NUM, False)}), NULL])},
+    ]
     # recursive operands / helper naming
     cases += [
         {'kind': 'exclude', 'A': ('or', [('ref', 'L1'), STR]), 'B': STR},
